@@ -24,6 +24,11 @@ RECORD_NIBBLES = 32       # 16 bytes
 TRAILER_NIBBLES = 8       # 4 bytes
 
 
+def strip_known(v):
+    """The stubbed tool calls are expected opaque applications, not imprecision."""
+    return v
+
+
 def opaque(name: str):
     def f(I: Interp, args: List[T.Term], kw: Dict[str, T.Term], st: Any, ctx: Ctx, node: Any) -> T.Term:
         return ("app", name) + tuple(args)
@@ -59,6 +64,7 @@ def run(prog: Program, rep: Report, tier: str) -> None:
     rep.rule("R10.1", "record slicing: records are the 16-byte chunks of reply bytes 45..len-4; an empty reply yields an empty set without raising", 3)
     rep.rule("R10.2", "record getters and SwitcherSchedule wiring: id=decimal rec[0], recurring <=> rec[2] != 0, days=bit_summary_to_days(rec[2]) or {} , start/end = local HH:MM of LE32 rec[4:8]/rec[8:12], duration=calc_duration(start,end), display=pretty_next_run(start,days)", 14)
     rep.rule("R10.3", "schedule identity is the slot id: __hash__ and __eq__ depend on schedule_id only", 2)
+    rep.rule("R10.5", "nothing on the listing path is memoised (the local-time decoder depends on the host zone; parsed schedules must reflect the reply just read)", 3)
     rep.rule("R10.4", "writer/reader agreement: the record create_schedule emits has days/start/end at the offsets and widths the reader uses, the same byte order, mktime<->localtime (both local), '%H:%M' on both sides, and the non-recurring constant the reader tests against", 6)
     rep.trusted += [
         "textwrap.wrap on whitespace-free text yields consecutive chunks of the given width ('' -> [])",
@@ -117,9 +123,13 @@ def run(prog: Program, rep: Report, tier: str) -> None:
                 if T.contains_top(got):
                     rep.undecided("R10.2", f"record {k}: {fname}", where, f"not understood: {T.contains_top(got)}")
                     continue
-                rep.check(canon(got) == canon(want), "R10.2", f"record {k}: {fname}", where,
+                rep.check_term(canon(got) == canon(want), strip_known(got), "R10.2", f"record {k}: {fname}", where,
                           f"{fname} of record {k} is {T.show(got)[:240]}; expected {T.show(want)[:240]}", key=f"R10.2|{fname}")
         rep.sample({"record0": {k_: T.show(v)[:160] for k_, v in o.state.heap[items[0][1]].fields.items()}})
+    for key in (f"{PARSER}:get_schedules", f"{TOOLS}:hexadecimale_timestamp_to_localtime", f"{TOOLS}:bit_summary_to_days", f"{PARSER}:ScheduleParser.get_start_time", f"{PARSER}:ScheduleParser.get_end_time"):
+        f_ = prog.func(key)
+        decos = [d for d in f_.decorators if any(x in d.split("(")[0].split(".")[-1] for x in ("cache", "lru_cache", "cached_property", "memoize"))]
+        rep.check(not decos, "R10.5", f"{f_.qualname} not memoised", f"{loc(f_, f_.node)} {f_.qualname}", f"{f_.qualname} is decorated with {decos}: a listing parsed after the host zone changed (or another reply with the same bytes) returns stale values", key=f"R10.5|{f_.qualname}")
     # R10.3
     sci = prog.cls(f"{PARSER}:SwitcherSchedule")
     for meth in ("__hash__", "__eq__"):
